@@ -1,0 +1,505 @@
+//! Verification hooks (feature `verif`).
+//!
+//! This module only *exposes* crate-internal functions and plain-data views of crate-internal
+//! types to an external verification harness. It does not alter the behaviour of the code it
+//! wraps. Nothing in here is compiled unless the `verif` feature is enabled.
+
+use std::cell::RefCell;
+use std::collections::{BTreeMap, HashSet};
+use std::convert::Infallible;
+use std::net::SocketAddr;
+use std::time::Duration;
+
+use tokio::time::Instant;
+
+pub use crate::delta::Delta;
+use crate::delta::{DeltaSerializer, NodeDelta};
+pub use crate::digest::Digest;
+use crate::digest::NodeDigest;
+use crate::failure_detector::FailureDetector;
+use crate::serialize::{CompressedStreamWriter, Serializable};
+use crate::types::{DeletionStatusMutation, KeyValueMutation};
+use crate::{
+    Chitchat, ChitchatId, ChitchatMessage, FailureDetectorConfig, Heartbeat, NodeState,
+    VersionedValue,
+};
+
+pub const MAX_UDP_DATAGRAM_PAYLOAD_SIZE: usize = crate::MAX_UDP_DATAGRAM_PAYLOAD_SIZE;
+
+/// Plain view of a key-value mutation. `status`: 0 = set, 1 = delete, 2 = delete-after-ttl.
+#[derive(Debug, Clone, PartialEq, Eq)]
+pub struct VKv {
+    pub key: String,
+    pub value: String,
+    pub version: u64,
+    pub status: u8,
+}
+
+/// Plain view of a node delta.
+#[derive(Debug, Clone, PartialEq, Eq)]
+pub struct VNodeDelta {
+    pub chitchat_id: ChitchatId,
+    pub from_version_excluded: u64,
+    pub last_gc_version: u64,
+    pub key_values: Vec<VKv>,
+    pub max_version: u64,
+}
+
+/// Plain view of a node digest.
+#[derive(Debug, Clone, PartialEq, Eq)]
+pub struct VNodeDigest {
+    pub chitchat_id: ChitchatId,
+    pub heartbeat: u64,
+    pub last_gc_version: u64,
+    pub max_version: u64,
+}
+
+fn status_from_u8(status: u8) -> DeletionStatusMutation {
+    DeletionStatusMutation::try_from(status).expect("status code must be 0, 1 or 2")
+}
+
+fn node_delta_from_view(view: VNodeDelta) -> NodeDelta {
+    NodeDelta {
+        chitchat_id: view.chitchat_id,
+        from_version_excluded: view.from_version_excluded,
+        last_gc_version: view.last_gc_version,
+        key_values: view
+            .key_values
+            .into_iter()
+            .map(|kv| KeyValueMutation {
+                key: kv.key,
+                value: kv.value,
+                version: kv.version,
+                status: status_from_u8(kv.status),
+            })
+            .collect(),
+        max_version: view.max_version,
+    }
+}
+
+fn node_delta_to_view(node_delta: &NodeDelta) -> VNodeDelta {
+    VNodeDelta {
+        chitchat_id: node_delta.chitchat_id.clone(),
+        from_version_excluded: node_delta.from_version_excluded,
+        last_gc_version: node_delta.last_gc_version,
+        key_values: node_delta
+            .key_values
+            .iter()
+            .map(|kv| VKv {
+                key: kv.key.clone(),
+                value: kv.value.clone(),
+                version: kv.version,
+                status: u8::from(kv.status),
+            })
+            .collect(),
+        max_version: node_delta.max_version,
+    }
+}
+
+pub fn delta_view(delta: &Delta) -> Vec<VNodeDelta> {
+    delta.node_deltas.iter().map(node_delta_to_view).collect()
+}
+
+/// Builds a `Delta` directly from its parts (no validation, like the in-crate test helpers).
+pub fn delta_from_parts(node_deltas: Vec<VNodeDelta>, serialized_len: usize) -> Delta {
+    Delta::verif_from_parts(
+        node_deltas.into_iter().map(node_delta_from_view).collect(),
+        serialized_len,
+    )
+}
+
+pub fn digest_view(digest: &Digest) -> Vec<VNodeDigest> {
+    digest
+        .node_digests
+        .iter()
+        .map(|(chitchat_id, node_digest)| VNodeDigest {
+            chitchat_id: chitchat_id.clone(),
+            heartbeat: node_digest.heartbeat.0,
+            last_gc_version: node_digest.last_gc_version,
+            max_version: node_digest.max_version,
+        })
+        .collect()
+}
+
+pub fn digest_from_parts(node_digests: Vec<VNodeDigest>) -> Digest {
+    let mut digest = Digest::default();
+    for node_digest in node_digests {
+        digest.node_digests.insert(
+            node_digest.chitchat_id,
+            NodeDigest {
+                heartbeat: Heartbeat(node_digest.heartbeat),
+                last_gc_version: node_digest.last_gc_version,
+                max_version: node_digest.max_version,
+            },
+        );
+    }
+    digest
+}
+
+pub fn heartbeat(value: u64) -> Heartbeat {
+    Heartbeat(value)
+}
+
+// ---------------------------------------------------------------------------------------------
+// NodeState
+
+pub fn node_new(chitchat_id: ChitchatId) -> NodeState {
+    NodeState::verif_new(chitchat_id)
+}
+
+/// 0 = Reject, 1 = Apply, 2 = ApplyAfterReset.
+pub fn node_check_delta_status(node_state: &NodeState, node_delta: &VNodeDelta) -> u8 {
+    node_state.verif_check_delta_status(&node_delta_from_view(node_delta.clone()))
+}
+
+/// 0 = Reject, 1 = Apply, 2 = ApplyAfterReset.
+pub fn node_apply_delta(node_state: &mut NodeState, node_delta: VNodeDelta) -> u8 {
+    node_state.verif_apply_delta(node_delta_from_view(node_delta), Instant::now())
+}
+
+pub fn node_gc_keys_marked_for_deletion(node_state: &mut NodeState, grace_period: Duration) {
+    node_state.verif_gc_keys_marked_for_deletion(grace_period)
+}
+
+pub fn node_set_versioned_value(node_state: &mut NodeState, key: String, value: VersionedValue) {
+    node_state.set_versioned_value(key, value)
+}
+
+pub fn node_set_last_gc_version(node_state: &mut NodeState, last_gc_version: u64) {
+    node_state.set_last_gc_version(last_gc_version)
+}
+
+pub fn node_set_heartbeat(node_state: &mut NodeState, heartbeat: u64) {
+    node_state.verif_set_heartbeat(Heartbeat(heartbeat))
+}
+
+pub fn node_remove_key_value_internal(node_state: &mut NodeState, key: &str) {
+    node_state.remove_key_value_internal(key)
+}
+
+// ---------------------------------------------------------------------------------------------
+// Chitchat
+
+pub fn cc_process_message(chitchat: &mut Chitchat, msg: ChitchatMessage) -> Option<ChitchatMessage> {
+    chitchat.process_message(msg)
+}
+
+pub fn cc_create_syn_message(chitchat: &Chitchat) -> ChitchatMessage {
+    chitchat.create_syn_message()
+}
+
+pub fn cc_update_nodes_liveness(chitchat: &mut Chitchat) {
+    chitchat.update_nodes_liveness()
+}
+
+pub fn cc_gc_keys_marked_for_deletion(chitchat: &mut Chitchat) {
+    chitchat.gc_keys_marked_for_deletion()
+}
+
+pub fn cc_update_self_heartbeat(chitchat: &mut Chitchat) {
+    chitchat.update_self_heartbeat()
+}
+
+pub fn cc_report_heartbeat(chitchat: &mut Chitchat, chitchat_id: &ChitchatId, heartbeat: u64) {
+    chitchat.report_heartbeat(chitchat_id, Heartbeat(heartbeat))
+}
+
+pub fn cc_node_state_mut_or_init<'a>(
+    chitchat: &'a mut Chitchat,
+    chitchat_id: &ChitchatId,
+) -> &'a mut NodeState {
+    chitchat.cluster_state.node_state_mut_or_init(chitchat_id)
+}
+
+pub fn cc_node_state_mut<'a>(
+    chitchat: &'a mut Chitchat,
+    chitchat_id: &ChitchatId,
+) -> Option<&'a mut NodeState> {
+    chitchat.cluster_state.node_state_mut(chitchat_id)
+}
+
+pub fn cc_remove_node(chitchat: &mut Chitchat, chitchat_id: &ChitchatId) {
+    chitchat.cluster_state.remove_node(chitchat_id)
+}
+
+pub fn cc_apply_delta(chitchat: &mut Chitchat, delta: Delta) -> bool {
+    chitchat.cluster_state.apply_delta(delta)
+}
+
+pub fn cc_compute_digest(chitchat: &Chitchat, scheduled_for_deletion: &[ChitchatId]) -> Digest {
+    let scheduled_for_deletion: HashSet<&ChitchatId> = scheduled_for_deletion.iter().collect();
+    chitchat.cluster_state.compute_digest(&scheduled_for_deletion)
+}
+
+pub fn cc_compute_partial_delta_respecting_mtu(
+    chitchat: &Chitchat,
+    digest: &Digest,
+    mtu: usize,
+    scheduled_for_deletion: &[ChitchatId],
+) -> Delta {
+    let scheduled_for_deletion: HashSet<&ChitchatId> = scheduled_for_deletion.iter().collect();
+    chitchat
+        .cluster_state
+        .compute_partial_delta_respecting_mtu(digest, mtu, &scheduled_for_deletion)
+}
+
+/// Heartbeat remembered for a garbage collected member.
+pub fn cc_last_heartbeat_if_deleted(chitchat: &Chitchat, chitchat_id: &ChitchatId) -> Option<u64> {
+    chitchat
+        .cluster_state
+        .last_heartbeat_if_deleted(chitchat_id)
+        .map(|heartbeat| heartbeat.0)
+}
+
+pub fn cc_previous_live_nodes(chitchat: &Chitchat) -> BTreeMap<ChitchatId, u64> {
+    chitchat
+        .previous_live_nodes
+        .iter()
+        .map(|(chitchat_id, version)| (chitchat_id.clone(), *version))
+        .collect()
+}
+
+pub fn cc_dead_nodes_with_time(chitchat: &Chitchat) -> BTreeMap<ChitchatId, Instant> {
+    chitchat
+        .failure_detector
+        .verif_dead_nodes()
+        .iter()
+        .map(|(chitchat_id, time_of_death)| (chitchat_id.clone(), *time_of_death))
+        .collect()
+}
+
+/// (stored intervals oldest first, incremental sum, last heartbeat instant) of the member's
+/// sampling window, if it has one.
+pub fn cc_window(
+    chitchat: &Chitchat,
+    chitchat_id: &ChitchatId,
+) -> Option<(Vec<f64>, f64, Option<Instant>)> {
+    chitchat
+        .failure_detector
+        .verif_window(chitchat_id)
+        .map(|window| window.verif_dump())
+}
+
+// ---------------------------------------------------------------------------------------------
+// Failure detector, stand-alone
+
+pub struct VFailureDetector(FailureDetector);
+
+impl VFailureDetector {
+    pub fn new(config: FailureDetectorConfig) -> Self {
+        VFailureDetector(FailureDetector::new(config))
+    }
+
+    pub fn report_heartbeat(&mut self, chitchat_id: &ChitchatId) {
+        self.0.report_heartbeat(chitchat_id)
+    }
+
+    pub fn create_window(&mut self, chitchat_id: &ChitchatId) {
+        self.0.get_or_create_sampling_window(chitchat_id);
+    }
+
+    pub fn update_node_liveness(&mut self, chitchat_id: &ChitchatId) {
+        self.0.update_node_liveness(chitchat_id)
+    }
+
+    pub fn garbage_collect(&mut self) -> Vec<ChitchatId> {
+        self.0.garbage_collect()
+    }
+
+    pub fn live_nodes(&self) -> Vec<ChitchatId> {
+        self.0.live_nodes().cloned().collect()
+    }
+
+    pub fn dead_nodes(&self) -> Vec<ChitchatId> {
+        self.0.dead_nodes().cloned().collect()
+    }
+
+    pub fn dead_nodes_with_time(&self) -> BTreeMap<ChitchatId, Instant> {
+        self.0
+            .verif_dead_nodes()
+            .iter()
+            .map(|(chitchat_id, time_of_death)| (chitchat_id.clone(), *time_of_death))
+            .collect()
+    }
+
+    pub fn scheduled_for_deletion_nodes(&self) -> Vec<ChitchatId> {
+        self.0.scheduled_for_deletion_nodes().cloned().collect()
+    }
+
+    pub fn window(&self, chitchat_id: &ChitchatId) -> Option<(Vec<f64>, f64, Option<Instant>)> {
+        self.0
+            .verif_window(chitchat_id)
+            .map(|window| window.verif_dump())
+    }
+}
+
+// ---------------------------------------------------------------------------------------------
+// Serialization
+
+struct RawItem<'a>(&'a [u8]);
+
+impl Serializable for RawItem<'_> {
+    fn serialize(&self, buf: &mut Vec<u8>) {
+        buf.extend_from_slice(self.0)
+    }
+
+    fn serialized_len(&self) -> usize {
+        self.0.len()
+    }
+}
+
+pub struct VStreamWriter(CompressedStreamWriter);
+
+impl VStreamWriter {
+    pub fn with_block_threshold(block_threshold: u16) -> Self {
+        VStreamWriter(CompressedStreamWriter::with_block_threshold(block_threshold))
+    }
+
+    pub fn serialized_len_upperbound_after(&self, item: &[u8]) -> usize {
+        self.0.serialized_len_upperbound_after(&RawItem(item))
+    }
+
+    pub fn append(&mut self, item: &[u8]) {
+        self.0.append(&RawItem(item))
+    }
+
+    pub fn finish(self) -> Vec<u8> {
+        self.0.finish()
+    }
+}
+
+pub struct VDeltaSerializer(DeltaSerializer);
+
+impl VDeltaSerializer {
+    pub fn with_mtu(mtu: usize) -> Self {
+        VDeltaSerializer(DeltaSerializer::with_mtu(mtu))
+    }
+
+    pub fn try_add_node(
+        &mut self,
+        chitchat_id: ChitchatId,
+        last_gc_version: u64,
+        from_version: u64,
+    ) -> bool {
+        self.0
+            .try_add_node(chitchat_id, last_gc_version, from_version)
+    }
+
+    pub fn try_add_kv(&mut self, key: &str, versioned_value: VersionedValue) -> bool {
+        self.0.try_add_kv(key, versioned_value)
+    }
+
+    pub fn try_set_max_version(&mut self, max_version: u64) -> bool {
+        self.0.try_set_max_version(max_version)
+    }
+
+    pub fn finish(self) -> Delta {
+        self.0.finish()
+    }
+}
+
+/// One record per flushed block: the raw bytes of the block and what was appended to the output
+/// (tag, length and stored bytes).
+#[derive(Debug, Clone)]
+pub struct FlushRecord {
+    pub raw: Vec<u8>,
+    pub stored: Vec<u8>,
+}
+
+thread_local! {
+    static FLUSH_LOG: RefCell<Option<Vec<FlushRecord>>> = const { RefCell::new(None) };
+    static SHUFFLE_LOG: RefCell<Option<Vec<ChitchatId>>> = const { RefCell::new(None) };
+}
+
+pub(crate) fn log_flush(raw: &[u8], stored: &[u8]) {
+    FLUSH_LOG.with(|log| {
+        if let Some(records) = log.borrow_mut().as_mut() {
+            records.push(FlushRecord {
+                raw: raw.to_vec(),
+                stored: stored.to_vec(),
+            });
+        }
+    })
+}
+
+/// Starts (or restarts) recording flushed blocks on this thread.
+pub fn start_flush_log() {
+    FLUSH_LOG.with(|log| *log.borrow_mut() = Some(Vec::new()))
+}
+
+/// Stops recording and returns the records.
+pub fn take_flush_log() -> Vec<FlushRecord> {
+    FLUSH_LOG.with(|log| log.borrow_mut().take().unwrap_or_default())
+}
+
+pub(crate) fn log_shuffle<'a>(chitchat_ids: impl Iterator<Item = &'a ChitchatId>) {
+    SHUFFLE_LOG.with(|log| {
+        if let Some(records) = log.borrow_mut().as_mut() {
+            records.extend(chitchat_ids.cloned());
+        }
+    })
+}
+
+/// Starts (or restarts) recording, on this thread, the order in which equally stale members
+/// were drawn by `compute_partial_delta_respecting_mtu`.
+pub fn start_shuffle_log() {
+    SHUFFLE_LOG.with(|log| *log.borrow_mut() = Some(Vec::new()))
+}
+
+pub fn take_shuffle_log() -> Vec<ChitchatId> {
+    SHUFFLE_LOG.with(|log| log.borrow_mut().take().unwrap_or_default())
+}
+
+// ---------------------------------------------------------------------------------------------
+// Peer selection
+
+/// A scripted random generator: returns the scripted words in order, cycling.
+pub struct ScriptedRng {
+    words: Vec<u64>,
+    pos: usize,
+}
+
+impl ScriptedRng {
+    pub fn new(words: Vec<u64>) -> Self {
+        assert!(!words.is_empty());
+        ScriptedRng { words, pos: 0 }
+    }
+
+    fn next(&mut self) -> u64 {
+        let word = self.words[self.pos % self.words.len()];
+        self.pos += 1;
+        word
+    }
+}
+
+impl rand::rand_core::TryRng for ScriptedRng {
+    type Error = Infallible;
+
+    fn try_next_u32(&mut self) -> Result<u32, Infallible> {
+        Ok((self.next() >> 32) as u32)
+    }
+
+    fn try_next_u64(&mut self) -> Result<u64, Infallible> {
+        Ok(self.next())
+    }
+
+    fn try_fill_bytes(&mut self, dst: &mut [u8]) -> Result<(), Infallible> {
+        for chunk in dst.chunks_mut(8) {
+            let word = self.next().to_le_bytes();
+            chunk.copy_from_slice(&word[..chunk.len()]);
+        }
+        Ok(())
+    }
+}
+
+pub fn select_nodes_for_gossip(
+    rng: &mut ScriptedRng,
+    peer_nodes: HashSet<SocketAddr>,
+    live_nodes: HashSet<SocketAddr>,
+    dead_nodes: HashSet<SocketAddr>,
+    seed_nodes: HashSet<SocketAddr>,
+) -> (Vec<SocketAddr>, Option<SocketAddr>, Option<SocketAddr>) {
+    crate::server::verif_select_nodes_for_gossip(
+        rng, peer_nodes, live_nodes, dead_nodes, seed_nodes,
+    )
+}
